@@ -389,6 +389,40 @@ func main() {
 	logger.Disable()
 	c.Rule("per scenario: threads sharing one compiled system / key / option slice / option value run the real (instrumented) Solve, Prove, Verify under the controlled scheduler; ALL schedules within the deviation bound (preemption bound for 2-3 thread scenarios, delay bound for the provers' pipelines) are executed; each call's observation (solution hash / error class / proof verifies) must equal the same call alone on fresh objects; panics and deadlocks (no enabled thread) are violations. Plus every call history of length <= 3. distinct = (scenario, observation tuple).")
 	c.Assume("threads are serialised at synchronisation operations and at statement-level points of the files that touch shared state (instr.json); data races below that granularity are the business of a separate free-running -race pass", "bn254 instantiation of the generated per-curve code")
+	if d := c.ReplayDetail(); d != nil {
+		// re-execute exactly the recorded schedule, without the explorer, five times
+		name, _ := d["scenario"].(string)
+		for _, s := range scenarios() {
+			if s.name != name {
+				continue
+			}
+			wantExpect = true
+			_, expect := s.setup()
+			wantExpect = false
+			for rep := 0; rep < 5; rep++ {
+				threads, _ := s.setup()
+				obs := make([]string, len(threads))
+				x := vh.RunOnce(func(x *vh.Ctx) {
+					vsched.Run(x, vsched.Options{Mode: s.mode, Fail: s.fail, LocalSync: s.local}, func() {
+						var wg vsync.WaitGroup
+						for i := range threads {
+							i := i
+							wg.Add(1)
+							vsched.Go(func() { defer wg.Done(); obs[i] = threads[i]() })
+						}
+						wg.Wait()
+					})
+				}, vh.ReplayChoices(d))
+				fmt.Printf("  replay %d: observed %v expected %v diverged=%q\n", rep+1, obs, expect, x.Diverged)
+				if fmt.Sprint(obs) != fmt.Sprint(expect) {
+					c.Violation(fmt.Sprint(d["__key"]), d)
+				}
+			}
+		}
+		c.Outcome("replay")
+		c.Outcome("replay-done")
+		c.Finish()
+	}
 	if unit, _, ok := vh.WorkerArgs(); ok {
 		for _, s := range scenarios() {
 			if s.name == unit {
